@@ -19,7 +19,7 @@ from . import build as vbuild
 VERIF = vbuild.VERIF
 WORK = os.path.join(VERIF, 'work')
 HARNESS = os.path.join(VERIF, 'harness')
-EVIDENCE = os.path.join(VERIF, 'evidence')
+EVIDENCE = os.environ.get('VERIF_EVIDENCE_DIR') or os.path.join(VERIF, 'evidence')  # the override is only for sensitivity runs against seeded changes
 REPLAYS = os.path.join(VERIF, 'replays')
 KNOWN = os.path.join(VERIF, 'KNOWN_FINDINGS.txt')
 
